@@ -315,10 +315,13 @@ def c07 (p : Panel) (a : List String) (bg : Nat) (before after : Ctrl) (primary 
       [s!"site={site} reason=plane-not-filled-exactly-once got=plane{pl}:{tot} want={size}"]) ++
     (if (regionUniform p.name after pl wb p.height).isSome then [] else
       [s!"site={site} reason=not-uniform got=plane{pl} want=single-value"])
-  let want := (primary.enc.apply [uniformByte p.name bg]).headD 0
+  let want := (primary.enc.apply [uniformByte p.name bg, uniformByte p.name bg]).headD 0
   let wbp := rowBytes p primary.enc
   let r1 := if !planes.contains primary.plane then
       [s!"site={site} reason=primary-plane-not-addressed got=planes{planes} want=plane{primary.plane}"]
+    -- tri-colour panels: what a chromatic background leaves in the black/white plane depends on
+    -- the panel's BWRBIT convention; only uniformity / completeness is required there
+    else if p.colors = 3 ∧ bg = 2 then []
     else match regionUniform p.name after primary.plane wbp p.height with
       | some v => if v = want then [] else
           [s!"site={site} reason=primary-differs-from-uniform-frame got={hexByte v} want={hexByte want} bg={bg}"]
